@@ -82,6 +82,7 @@ func GenBasic(t *rapid.T) BasicCase {
 		Scoped:   rapid.Bool().Draw(t, "scoped"),
 		Method:   rapid.SampledFrom(methodsAny).Draw(t, "method"),
 	}
+	c.Earlier = rapid.IntRange(0, 3).Draw(t, "after-another-basic-authenticator") == 0
 	switch c.Send {
 	case "bearer":
 		c.Other = kit.BStr(nonEmpty(headerSafe(genSecret(t, "other")), "tok"))
@@ -113,6 +114,13 @@ func GenKey(t *rapid.T) KeyCase {
 		c.Name = rapid.SampledFrom([]string{"api_key", "API_KEY", "api key", "k&x", "ü", "a+b", "a=b", "%41", "key[]", "access_token", "k"}).Draw(t, "name")
 		c.ServerName = c.Name // query names are case-sensitive
 		c.Value = kit.BStr(nonEmpty(genSecret(t, "value"), "k"))
+	}
+	if c.In == "query" && c.Send == "right" && rapid.IntRange(0, 3).Draw(t, "static-parameter") == 0 {
+		c.Static = rapid.SampledFrom([]string{"base", "pattern"}).Draw(t, "static")
+	}
+	if c.Name != "access_token" && (c.Send == "right" || c.Send == "none") && rapid.IntRange(0, 3).Draw(t, "after-bearer") == 0 {
+		c.AfterBearer = rapid.SampledFrom([]string{"urlencoded", "urlencoded", "multipart"}).Draw(t, "form")
+		c.Method = rapid.SampledFrom([]string{"POST", "PUT", "PATCH"}).Draw(t, "form-method")
 	}
 	if c.Send == "other-location" {
 		// the same key sent in the other location must be expressible there
@@ -274,6 +282,10 @@ func ClassifyBasic(c BasicCase) (bool, []string) {
 		l["param: *http.Request"] = true
 	}
 	nt := false
+	if c.Earlier {
+		l["after another basic authenticator with its own realm"] = true
+		nt = true
+	}
 	if c.Send == "basic" {
 		secretLabels(l, "user", string(c.User))
 		secretLabels(l, "password", string(c.Pass))
@@ -296,9 +308,17 @@ func ClassifyKey(c KeyCase) (bool, []string) {
 		l["name needing escape/non-token"] = true
 	}
 	nt := false
+	if c.Static != "" {
+		l["query key next to a static query parameter of the same name in the "+c.Static] = true
+		nt = true
+	}
+	if c.AfterBearer != "" {
+		l["after a bearer authenticator, "+c.AfterBearer+" body field named like the key, send="+c.Send] = true
+		nt = true
+	}
 	if c.Send == "right" {
 		secretLabels(l, "value", string(c.Value))
-		nt = transformed(string(c.Value)) || c.ServerName != c.Name
+		nt = nt || transformed(string(c.Value)) || c.ServerName != c.Name
 	}
 	return nt, sorted(l)
 }
